@@ -4,7 +4,7 @@
    the recorded bytes (byte half of C01), and sequential histories leave no orphans in the store (C09, sequential
    part).  The interleaving/GC half is in C08gc.v / C09.v.
    Statements + exact-lemma proofs + Print Assumptions only. *)
-From Verif Require Import Bytes Codec Md5 Meta MetaBasics MetaWitness MetaPartsDefs MetaParts MetaPartsOps.
+From Verif Require Import Bytes Codec Md5 Meta MetaBasics MetaWitness MetaPartsDefs MetaParts MetaPartsOps MetaPartsOwned.
 
 Print count_rows.
 Print PartsInv.
@@ -91,6 +91,27 @@ Theorem C09_no_orphans_step : forall i hist s o,
 Proof. exact step_no_orphans. Qed.
 Print Assumptions C09_no_orphans_step.
 
+(* no dangling part rows: in every reachable state each part row belongs to an existing object row (committed
+   version or pending upload) that is not a delete marker; delete markers carry no parts *)
+Theorem C08_parts_owned : forall ops row, In row (parts (fst (run ops))) ->
+  exists r, In r (objs (fst (run ops))) /\ o_id r = p_obj row /\ o_dm r = false.
+Proof. exact run_parts_owned. Qed.
+Print Assumptions C08_parts_owned.
+
+Theorem C08_delete_markers_have_no_parts : forall ops r row,
+  In r (objs (fst (run ops))) -> o_dm r = true -> In row (parts (fst (run ops))) -> p_obj row <> o_id r.
+Proof. exact run_dm_no_parts. Qed.
+Print Assumptions C08_delete_markers_have_no_parts.
+
+(* C09, sequential part, at full strength: every stored part is the recorded content of a part row of an existing
+   object version or pending upload — stored bytes = referenced set after every sequential history *)
+Theorem C09_stored_is_referenced_sequential : forall ops p c,
+  store_get (store (fst (run ops))) p = Some c ->
+  exists row r, In row (parts (fst (run ops))) /\ p_pid row = p /\ p_content row = c /\
+                In r (objs (fst (run ops))) /\ o_id r = p_obj row /\ o_dm r = false.
+Proof. exact run_stored_is_referenced. Qed.
+Print Assumptions C09_stored_is_referenced_sequential.
+
 (* ---- non-vacuity: concrete histories evaluated on the model ---- *)
 Definition c08_k2 : bytes := B"k2".
 Definition c08_view (s : mstate) :=
@@ -128,3 +149,11 @@ Proof. eexists. split; [vm_compute; reflexivity|]. repeat split; vm_compute; ref
 Example C08_ex_dead :
   Dead (fst (run (c08_h1 ++ [ODel wb c08_k2 VRNone CRNone; ODel wb wk VRNone CRNone]))) 1.
 Proof. repeat split; try (vm_compute; reflexivity). intros c H. vm_compute in H. exact H. Qed.
+(* delete markers and pending uploads coexist with stored parts in the example state: 3 object rows, one of them a
+   delete marker without parts *)
+Example C08_ex_owned_with_delete_marker :
+  let s := fst (run [OMb wb; OVer wb VEnabled; OPut wb wk cA CRNone; ODel wb wk VRNone CRNone; OCmu wb wk;
+                     OUp wb wk 4 1 cB]) in
+  map (fun r => (o_id r, o_dm r, completed r)) (objs s) = [(2, false, true); (3, true, true); (4, false, false)]%N /\
+  map (fun p => (p_obj p, p_pid p)) (parts s) = [(2, 1); (4, 5)]%N.
+Proof. split; vm_compute; reflexivity. Qed.
